@@ -337,3 +337,31 @@ package openflow13
 //@   allocbound max(4096, len(data))
 //@   own noalias
 //@   ensures err == nil ==> msg != nil && wfl(msg)
+
+// ---------------------------------------------------------------------------------------------
+// C04 instance lemmas (zz_lemmas_verif.go): multipart replies with two records. The requires clauses describe the
+// conformant message (OpenFlow 1.3.5 sections 7.3.5, 7.2.1, 7.3.5.2); everything not mentioned is symbolic.
+//@ func lemmaParsePortDescReply(b) (message, err) [C04]
+//@   inlinecalls
+//@   allowglobals
+//@   unroll 4
+//@   requires len(b) == 144 && u8(b, 0) == 4 && u8(b, 1) == 19 && be16(b, 2) == 144 && be16(b, 8) == 13
+//@   ensures[C04] err == nil && typeis(message, *MultipartReply) && message.(*MultipartReply).Type == 13 && message.(*MultipartReply).Flags == be16(b, 10) && len(message.(*MultipartReply).Body) == 2
+//@   ensures[C04] err == nil ==> typeis(message.(*MultipartReply).Body[0], *PhyPort) && message.(*MultipartReply).Body[0].(*PhyPort).PortNo == be32(b, 16) && bytes_eq(message.(*MultipartReply).Body[0].(*PhyPort).HWAddr, 0, b, 24, 6) && bytes_eq(message.(*MultipartReply).Body[0].(*PhyPort).Name, 0, b, 32, 16) && message.(*MultipartReply).Body[0].(*PhyPort).Config == be32(b, 48) && message.(*MultipartReply).Body[0].(*PhyPort).State == be32(b, 52) && message.(*MultipartReply).Body[0].(*PhyPort).MaxSpeed == be32(b, 76)
+//@   ensures[C04] err == nil ==> typeis(message.(*MultipartReply).Body[1], *PhyPort) && message.(*MultipartReply).Body[1].(*PhyPort).PortNo == be32(b, 80) && bytes_eq(message.(*MultipartReply).Body[1].(*PhyPort).HWAddr, 0, b, 88, 6) && bytes_eq(message.(*MultipartReply).Body[1].(*PhyPort).Name, 0, b, 96, 16) && message.(*MultipartReply).Body[1].(*PhyPort).Config == be32(b, 112) && message.(*MultipartReply).Body[1].(*PhyPort).MaxSpeed == be32(b, 140)
+
+// two flow-stats records: the first with an in_port match (padded to 16) and a goto-table instruction (72 bytes),
+// the second with an empty match (8) and no instruction (56 bytes)
+//@ func lemmaParseFlowStatsReply(b) (message, err) [C04]
+//@   inlinecalls
+//@   allowglobals
+//@   unroll 4
+//@   recurse 1
+//@   requires len(b) == 144 && u8(b, 0) == 4 && u8(b, 1) == 19 && be16(b, 2) == 144 && be16(b, 8) == 1
+//@   requires be16(b, 16) == 72 && be16(b, 64) == 1 && be16(b, 66) == 12 && be32(b, 68) == 2147483652 && be16(b, 80) == 1 && be16(b, 82) == 8
+//@   requires be16(b, 88) == 56 && be16(b, 136) == 1 && be16(b, 138) == 4
+//@   ensures[C04] err == nil && typeis(message, *MultipartReply) && len(message.(*MultipartReply).Body) == 2
+//@   ensures[C04] err == nil ==> typeis(message.(*MultipartReply).Body[0], *FlowStats) && message.(*MultipartReply).Body[0].(*FlowStats).TableId == u8(b, 18) && message.(*MultipartReply).Body[0].(*FlowStats).Priority == be16(b, 28) && message.(*MultipartReply).Body[0].(*FlowStats).Cookie == be64(b, 40) && message.(*MultipartReply).Body[0].(*FlowStats).ByteCount == be64(b, 56)
+//@   ensures[C04] err == nil ==> typeis(message.(*MultipartReply).Body[0], *FlowStats) && len(message.(*MultipartReply).Body[0].(*FlowStats).Match.Fields) == 1 && typeis(message.(*MultipartReply).Body[0].(*FlowStats).Match.Fields[0].Value, *InPortField) && message.(*MultipartReply).Body[0].(*FlowStats).Match.Fields[0].Value.(*InPortField).InPort == be32(b, 72)
+//@   ensures[C04] err == nil ==> typeis(message.(*MultipartReply).Body[0], *FlowStats) && len(message.(*MultipartReply).Body[0].(*FlowStats).Instructions) == 1 && typeis(message.(*MultipartReply).Body[0].(*FlowStats).Instructions[0], *InstrGotoTable) && message.(*MultipartReply).Body[0].(*FlowStats).Instructions[0].(*InstrGotoTable).TableId == u8(b, 84)
+//@   ensures[C04] err == nil ==> typeis(message.(*MultipartReply).Body[1], *FlowStats) && message.(*MultipartReply).Body[1].(*FlowStats).TableId == u8(b, 90) && message.(*MultipartReply).Body[1].(*FlowStats).Priority == be16(b, 100) && message.(*MultipartReply).Body[1].(*FlowStats).Cookie == be64(b, 112) && len(message.(*MultipartReply).Body[1].(*FlowStats).Match.Fields) == 0 && len(message.(*MultipartReply).Body[1].(*FlowStats).Instructions) == 0
